@@ -383,6 +383,26 @@ func total08Workload(args []string) int {
 				n := 1 + rng.Intn(20)
 				var txs []pb.Transaction
 				var tags []string
+				if rng.Intn(10) == 0 {
+					// a flood: hundreds of transactions of one block fail their signature check at the same time (empty
+					// signature, or no sender to check against): the per-transaction goroutines all report at once
+					n = 0
+					m := 150 + rng.Intn(450)
+					noFrom := rng.Intn(3) == 0
+					for i := 0; i < m; i++ {
+						tx := world.Transfer(harness.User(rng.Intn(4)), harness.User(0).Addr, "1")
+						tx.Signature = nil
+						if noFrom {
+							tx.From = nil
+						}
+						tx.TransactionHash = tx.Hash()
+						txs = append(txs, tx)
+					}
+					tags = append(tags, fmt.Sprintf("flood:%d-unsigned-transfers(no-sender=%v)", m, noFrom))
+					shape["flood:unsigned"] = true
+					w.Count("txs", int64(m))
+					w.Count("kind:flood", 1)
+				}
 				for i := 0; i < n; i++ {
 					tx, tag := t.genTx()
 					txs = append(txs, tx)
@@ -391,7 +411,7 @@ func total08Workload(args []string) int {
 					w.Count("txs", 1)
 					w.Count("kind:"+strings.SplitN(tag, ":", 2)[0], 1)
 				}
-				local := make([]bool, n)
+				local := make([]bool, len(txs))
 				for i := range local {
 					local[i] = rng.Intn(4) == 0
 				}
